@@ -357,7 +357,7 @@ func streamSampleStream(r io.Reader, step time.Duration) (dst MetricTimeRanges, 
 
 	dec := json.NewDecoder(r)
 	if err = decoder.Stream(dec); err != nil {
-		return nil, stats, APIError{Status: status, ErrorType: v1.ErrBadResponse, Err: fmt.Sprintf("JSON parse error: %s", err)}
+		return nil, stats, streamError(status, err)
 	}
 
 	if status != "success" {
